@@ -127,14 +127,15 @@ func runGossip(c *core.Ctx) {
 		if victim.CS.VerifStateLockFree() {
 			return false
 		}
-		// the gossip goroutines only take the lock for the duration of GetRoundState: probe again after pauses
-		time.Sleep(20 * time.Millisecond)
-		if victim.CS.VerifStateLockFree() {
-			return false
-		}
-		time.Sleep(200 * time.Millisecond)
-		if victim.CS.VerifStateLockFree() {
-			return false
+		// the gossip goroutines only take the lock for the duration of GetRoundState, but on a loaded machine a
+		// goroutine can be descheduled while it holds it (seen once, thorough tier at seed 2 with a second thorough
+		// run on the same machine; not reproducible): a leaked lock stays held for ever, so the probe is patient
+		// (up to 15 s) and only a lock that is never free in that time is reported
+		for i := 0; i < 300; i++ {
+			time.Sleep(50 * time.Millisecond)
+			if victim.CS.VerifStateLockFree() {
+				return false
+			}
 		}
 		c.Violation("state-lock-leaked/announcement", "after "+after+" the consensus state mutex stays held: the node is halted", map[string]interface{}{"sequence": seq})
 		return true
